@@ -90,10 +90,11 @@ fn repr_cmp_same_base<const B: Word, const ABS: bool>(
 
     // case 4: compare exponent and digits
     let (lhs_digits, rhs_digits) = (lhs.digits_ub(), rhs.digits_ub());
-    if lhs_exp > rhs_exp + rhs_digits as isize {
+    // (in i128: exponent + digits leaves the isize range for exponents close to isize::MAX)
+    if lhs_exp as i128 > rhs_exp as i128 + rhs_digits as i128 {
         return sign * Ordering::Greater;
     }
-    if rhs_exp > lhs_exp + lhs_digits as isize {
+    if rhs_exp as i128 > lhs_exp as i128 + lhs_digits as i128 {
         return sign * Ordering::Less;
     }
 
